@@ -41,7 +41,8 @@ PROBES = ['kind:smtp', 'kind:lmtp', 'kind:mx', 'kind:pipe', 'kind:pipe1',
           'starttls', 'auth', 'mx-second-host', 'mx-a-fallback', 'dns-error',
           'dns-a-fallback-error',
           'no-domain', 'lmtp-per-rcpt-failure', 'http-no-reply-header',
-          'http-response-body']
+          'http-response-body', 'data-354-without-recipients',
+          'server-closed-idle-connection', '8bit-without-8bitmime']
 STATES_MEASURE = 'distinct (relay kind, fault stage, fault behaviour, pipelining) tuples'
 STEP_CAP = 300000
 SMTP_STAGES = ['connect', 'banner', 'ehlo', 'mail', 'rcpt', 'rcpt', 'data',
@@ -98,6 +99,13 @@ def generate(seed, tier='quick'):
             scn['credentials'] = ['user', 'secret']
         scn['connect_plan'] = []
         conn_scripts = []
+        eightbit = rng.random() < 0.12
+        if eightbit:
+            # 8-bit content, a server without 8BITMIME, no encoder
+            # configured: refused for good before anything is sent
+            scn['extensions'] = [e for e in scn['extensions']
+                                 if e != '8BITMIME']
+            scn['body8'] = True
         for j in range(nat):
             tag = 'a%d' % j
             nr = rng.randint(1, 3)
@@ -146,6 +154,11 @@ def generate(seed, tier='quick'):
                 else:
                     conn['ehlo'] = [{'code': '500'}]
                     expect = {'whole': 'ok'}     # HELO fallback
+                    if rng.random() < 0.3:
+                        # ... which the server refuses as well
+                        hb = rng.choice(['4xx', '5xx'])
+                        conn['helo'] = [_act(hb, rng)]
+                        expect = {'whole': _cls(hb)}
             elif stage == 'mail':
                 txs['mail'] = [_act(b, rng)]
                 expect = {'whole': _cls(b)}
@@ -156,6 +169,14 @@ def generate(seed, tier='quick'):
                 if b in ('4xx', '5xx'):
                     if nr == 1:
                         expect = {'whole': _cls(b)}
+                        if rng.random() < 0.5:
+                            # a server that answers the (pipelined) DATA with
+                            # 354 although it accepted no recipient: the
+                            # client has to send an empty message to get out
+                            txs['data'] = [{'code': '354'}]
+                            txs['eod'] = [{'code': '554',
+                                           'text': '5.5.1 no valid recipients'}]
+                            att['data_354_anyway'] = True
                     else:
                         expect = {'per': {rcpts[idx]: _cls(b)}, 'rest': 'ok'}
                 else:
@@ -186,11 +207,26 @@ def generate(seed, tier='quick'):
             elif stage == 'quit':
                 conn['quit'] = [_act(b, rng)]
                 expect = {'whole': 'ok'}
+            if eightbit and expect is not None and \
+                    stage not in ('connect', 'banner', 'ehlo', 'ehlo500',
+                                  'starttls', 'auth'):
+                expect = {'whole': 'perm'}
+                att['stage'], att['behav'] = 'encoding', 'no-8bitmime'
+                txs = {}
             att['expect'] = expect
             if txs:
                 tx[tag] = txs
             attempts.append(att)
         # a second connection is clean (same TLS offer)
+        if scn['idle_timeout'] and nat > 1 and kind != 'mx' and \
+                not use_tls and rng.random() < 0.25 and \
+                attempts[0]['stage'] in ('none', 'mail', 'rcpt', 'data'):
+            # the server gives up the idle kept-alive connection first (421,
+            # close); the next message finds that out, goes back on the
+            # pool's queue and is delivered over a new connection
+            conn['idle_421'] = 1.0
+            scn['gap'] = 2.0
+            scn['server_idle_421'] = True
         scn['conn_scripts'] = [conn, {k: v for k, v in conn.items()
                                       if k == 'offer_starttls'}]
         scn['tx_scripts'] = tx
@@ -385,12 +421,15 @@ def execute(scn, debug=False):
 
         def driver():
             for j, att in enumerate(scn['attempts']):
-                env = hr.make_envelope(att['sender'], att['rcpts'], att['tag'])
+                env = hr.make_envelope(
+                    att['sender'], att['rcpts'], att['tag'],
+                    body=b'caf\xc3\xa9 \xff 8-bit\r\n' if scn.get('body8')
+                    else None)
                 t0 = world.loop._now
                 res = hr.classify_result(lambda: relay._attempt(env, j))
                 res['t'] = world.loop._now - t0
                 results.append(res)
-                gevent.sleep(0.5)
+                gevent.sleep(scn.get('gap', 0.5))
         g = gevent.spawn(driver)
         ok = world.wait(g, 2000.0)
         violations = []
@@ -514,12 +553,18 @@ def execute(scn, debug=False):
                 world.probe('lmtp-per-rcpt-failure')
             if att['behav'] == 'no-header':
                 world.probe('http-no-reply-header')
+            if att.get('data_354_anyway'):
+                world.probe('data-354-without-recipients')
         if ds.listener is not None:
             if len(results) > 1 and len(ds.listener.client_socks) < len(
                     results):
                 world.probe('connection-reused')
         if 'PIPELINING' not in (scn.get('extensions') or ['PIPELINING']):
             world.probe('pipelining-off')
+        if scn.get('body8'):
+            world.probe('8bit-without-8bitmime')
+        if scn.get('server_idle_421'):
+            world.probe('server-closed-idle-connection')
         if scn.get('zone_kind') == 'a':
             world.probe('mx-a-fallback')
         if scn.get('zone_kind') == 'mx2' and len(results) > 1:
